@@ -67,6 +67,10 @@ def observe(V, normal, cls="Polygon"):
              perimeter=float(p.perimeter), centroid=np.array(p.centroid, float),
              polar=float(p.polar_moment_inertia), inertia=np.array(p.inertia_tensor, float),
              planar=[float(x) for x in p.planar_moments_inertia])
+    # a copy (copy.copy, copy.deepcopy, a pickle round trip) of the polygon is the same polygon: normal, orientation and measures
+    o["copies"] = C.copy_probe(lambda: getattr(coxeter.shapes, cls)(np.array(V, float), normal=None if normal is None else normal.copy()),
+                               lambda s_: dict(normal=s_.normal, signed_area=s_.signed_area, area=s_.area, centroid=s_.centroid,
+                                               inertia=s_.inertia_tensor, vertices=s_.vertices), grow=("area",))
     return o
 
 
@@ -152,6 +156,9 @@ def run(chk):
         if not C.close(o["normal"], nhat, 1e-9):
             chk.violation("normal", dict(desc, impl=o["normal"].tolist(), exact=nhat.tolist()))
             continue
+
+        for prob in o.get("copies", [])[:1]:
+            chk.violation("copy-is-another-polygon", dict(desc, what=prob))
 
         def cmp(name, impl, exact, scale, known=None):
             if C.close(impl, exact, RTOL * scale):
